@@ -285,14 +285,13 @@ def startEv (tag : Name) (attrs : List (Name × Str)) : Event :=
 
 def endEv (tag : Name) : Event := .end_ (QName.plain tag)
 
-/-- the pairs `py:attrs` merges into the start tag: `None` removes, other values are
-    `str(v).strip()`, and an empty result removes as well (`… or None`) -/
+/-- the pairs `py:attrs` merges into the start tag: only `None` removes, other values are
+    `str(v).strip()` (an empty result is kept as an empty value since genshi fix ec9dd78;
+    before it `… or None` removed the attribute) -/
 def attrPair (p : Str × Atom) : Name × Option Str :=
   match p.2 with
   | .none => (p.1, Option.none)
-  | a =>
-    let s := Str.stripBy Str.isAsciiSpace a.text
-    (p.1, if s.isEmpty then Option.none else some s)
+  | a => (p.1, some (Str.stripBy Str.isAsciiSpace a.text))
 
 /-- value of a `py:attrs` expression → the pairs to merge (falsy: nothing).
     A list must hold (name, value) pairs, which the mini language cannot build. -/
